@@ -10,6 +10,7 @@ import (
 	"io"
 	"net"
 	"strings"
+	"sync"
 	"sync/atomic"
 	"time"
 
@@ -139,6 +140,7 @@ func (p *h2peer) serve(c net.Conn) {
 func (p *h2peer) serveSteps(c net.Conn, tc *net.TCPConn, rd *round) {
 	events := make(chan string, 64)
 	readerDone := make(chan struct{})
+	var wmu sync.Mutex
 	go func() {
 		defer close(readerDone)
 		pre := make([]byte, 24)
@@ -151,10 +153,31 @@ func (p *h2peer) serveSteps(c net.Conn, tc *net.TCPConn, rd *round) {
 				return
 			}
 			n := int(hdr[0])<<16 | int(hdr[1])<<8 | int(hdr[2])
-			if _, err := io.CopyN(io.Discard, c, int64(n)); err != nil {
+			payload := make([]byte, n)
+			if _, err := io.ReadFull(c, payload); err != nil {
 				return
 			}
 			t, fl := hdr[3], hdr[4]
+			if t == 6 && fl&0x1 == 0 {
+				// the client's PING: acknowledged as often as the script says, back to back in one write
+				var acks []byte
+				for i := 0; i < rd.PingAcks; i++ {
+					p := payload
+					if rd.PingOther && i == rd.PingAcks-1 {
+						p = []byte("otherpay")
+					}
+					acks = append(acks, rawFrame(fPing, 1, 0, p)...)
+				}
+				if len(acks) > 0 {
+					wmu.Lock()
+					c.Write(acks)
+					wmu.Unlock()
+				}
+				select {
+				case events <- "ping":
+				default:
+				}
+			}
 			if (t == 1 || t == 9) && fl&0x4 != 0 {
 				select {
 				case events <- "headers":
@@ -186,9 +209,19 @@ func (p *h2peer) serveSteps(c net.Conn, tc *net.TCPConn, rd *round) {
 				}
 			}
 		}
-		if _, err := c.Write(st.Data); err != nil {
+		wmu.Lock()
+		_, err := c.Write(st.Data)
+		wmu.Unlock()
+		if err != nil {
 			return
 		}
+	}
+	if rd.End == "hold" {
+		select {
+		case <-readerDone:
+		case <-time.After(time.Duration(rd.Hold) * time.Millisecond):
+		}
+		return
 	}
 	if tc != nil {
 		tc.CloseWrite()
@@ -704,6 +737,8 @@ func genH2Cases(r *hk.Rand, quick bool, add func(*Case)) {
 	genH2WindowCases(r, quick, add)
 	genH2LimitCases(r, quick, add)
 	genH2GoAwayCases(r, quick, add)
+	genH2PingCases(r, quick, add)
+	genH2HeldOpenCases(r, quick, add)
 }
 
 // how the peer opens a stream's send window that its SETTINGS had set to zero: the request body
@@ -843,6 +878,53 @@ func genH2GoAwayCases(r *hk.Rand, quick bool, add func(*Case)) {
 				c.Rounds = []Round{{Data: cat(settingsFrame(), settingsAck(), data), End: "fin"}}
 				add(c)
 			}
+		}
+	}
+}
+
+// a health-check ping in flight (ReadIdleTimeout) while the response is outstanding x how the peer
+// acknowledges it: not at all, once, twice or three times with the same payload, with another payload
+func genH2PingCases(r *hk.Rand, quick bool, add func(*Case)) {
+	for _, acks := range []int{0, 1, 2, 3} {
+		for _, other := range []bool{false, true} {
+			if other && acks == 0 {
+				continue
+			}
+			for rep := 0; rep < 2; rep++ {
+				c := &Case{Kind: "h2", Method: hk.Pick(r, []string{"GET", "POST"}), Shape: fmt.Sprintf("h2:ping-acked-x%d-other%v", acks, other)}
+				c.Opts = Opts{DisableAutoDecode: true, TimeoutMs: 3000, H2ReadIdleMs: 60}
+				steps := []H2Step{{Data: cat(settingsFrame(), settingsAck())},
+					{Wait: "ping", Data: nil}}
+				if rep == 1 {
+					steps = append(steps, H2Step{Wait: "ping", Data: nil}) // a second health check
+				}
+				steps = append(steps, H2Step{Data: cat(headersFrame(1, okHeaders(hf{"content-length", "2"}), false, true), dataFrame(1, []byte("ok"), true))})
+				if acks >= 1 && !(other && acks == 1) {
+					c.Expect = "response" // every ping was acknowledged: the response that follows must be delivered
+				}
+				for i := range steps {
+					steps[i].Hex = capHex(steps[i].Data)
+				}
+				c.Rounds = []Round{{Steps: steps, End: "fin", PingAcks: acks, PingOther: other}}
+				add(c)
+			}
+		}
+	}
+}
+
+// a complete but illegal message on a connection the peer keeps open: the call must end with the
+// protocol error, not by the caller's own timeout
+func genH2HeldOpenCases(r *hk.Rand, quick bool, add func(*Case)) {
+	for _, code := range []string{"100", "103", "199", "101"} {
+		for _, pre := range []int{0, 2} {
+			var b []byte
+			for i := 0; i < pre; i++ {
+				b = append(b, headersFrame(1, []hf{{":status", "103"}}, false, true)...)
+			}
+			c := &Case{Kind: "h2", Method: hk.Pick(r, []string{"GET", "POST"}), Shape: fmt.Sprintf("h2:interim-%s-with-end-stream-held-open-pre%d", code, pre), Expect: "error-not-timeout"}
+			c.Opts = Opts{DisableAutoDecode: true, TimeoutMs: 2500}
+			c.Rounds = []Round{{Data: cat(settingsFrame(), settingsAck(), b, headersFrame(1, []hf{{":status", code}, {"link", "</a>"}}, true, true)), End: "hold", Hold: 4000}}
+			add(c)
 		}
 	}
 }
